@@ -21,6 +21,9 @@ func dbg(c *Ctx) {
 		if os.Getenv("VCHECK_SSA") != "" {
 			fn.WriteTo(os.Stdout)
 		}
+		if dl, okD, whyD := c.deepLeaves(fn, true); true {
+			fmt.Printf("  deep read : %s ok=%v (%s)\n", leavesString(dl), okD, whyD)
+		}
 		if rl, why := c.wireLeaves(fn, true); true {
 			fmt.Printf("  wire read : %s (%s)\n", leavesString(rl), why)
 		}
